@@ -442,7 +442,7 @@ func c15() *report.Check {
 			"admissible = eon, expiry, gas limit fit into int64 and the trigger definition is valid (by construction per docs/event.md)",
 		},
 		Shards: func(thorough bool) int { return 16 },
-		Budget: minutes(1.6, 23),
+		Budget: minutes(3, 23),
 		Run:    runC15,
 		Replay: func(c *report.Ctx, raw json.RawMessage) string {
 			var rp c15Replay
@@ -656,6 +656,16 @@ func runC15(c *report.Ctx) {
 					report15(f, p2, step, "")
 				} else {
 					c.Stats.Class(string(w.kind) + ":" + cls + ":held")
+				}
+				if w.faults {
+					// every single fault inside the Sync of the admitted gap head too (the states
+					// reached are judged, not explored further)
+					c.Stats.Count("fault_enumerations_at_gap_heads", 1)
+					u.faultSteps(c, s, g.h, g.o.res, p2, func(string, *c15State) {}, func(f *finding, p []string, st c15Step, note string) {
+						if jf := judgeGap(f); jf != nil {
+							report15(jf, p, st, note)
+						}
+					})
 				}
 			}
 		}
